@@ -1052,7 +1052,7 @@ def oracleC09 (lines : List String) : OResult :=
   -- send, was never connected / dropped / re-bound, with a queue that cannot have overflowed
   let res := if res.ok && drained && cap ≥ 64 && st.sends.length < 60 then
       match st.sends.find? (fun σ =>
-        (ipOf σ.dst).startsWith "h" &&
+        ((ipOf σ.dst).startsWith "h" || (ipOf σ.dst == "bc" && σ.bcastOn)) &&
         st.socks.any (fun k => !k.disturbed && k.sinceStep < σ.step && !st.blindReads.contains (k.host, k.slot) &&
           c09Targets σ k && !st.got.contains (k.host, k.slot, σ.id))) with
       | some σ => { res with ok := false, detail := s!"datagram {σ.id} to {σ.dst} was never delivered although the link is healthy and the queue had room" }
